@@ -740,7 +740,7 @@ func TestAuthorizeConcurrent(t *testing.T) {
 			wg.Add(1)
 			go func(g int) {
 				defer wg.Done()
-				for it := 0; it < 400; it++ {
+				for it := 0; it < 20000; it++ {
 					x := qs[g][it%len(qs[g])]
 					if _, _, got := e.b.S.Authorize(x.ch, x.c.Need); got != x.want {
 						errs <- fmt.Sprintf("with %d goroutines authorizing at once: Authorize(%+v) = %v, expected %v", G, x.c, got, x.want)
@@ -760,5 +760,131 @@ func TestAuthorizeConcurrent(t *testing.T) {
 		default:
 		}
 		vkit.Record(t.Name(), map[string]int{"round": round, "license": v, "goroutines": G}, vkit.OK(true, "authorize-concurrent"))
+	}
+}
+
+// ---------------------------------------------------------------------------------------------
+
+// TestContractRefresh: contracts served by the HTTP contract provider change at the provider - most are refused from
+// now on, one disappears (or the provider fails for it), one stays allowed. After refresh rounds have run, keys of the
+// refused contracts must not be accepted any more and the allowed one still is.
+func TestContractRefresh(t *testing.T) {
+	rounds := vkit.N(3)
+	for round := 0; round < rounds; round++ {
+		const N = 24
+		var mu sync.Mutex
+		state := map[uint32]string{} // id -> "allowed" | "refused" | "gone" | "error"
+		hits := map[uint32]int{}
+		lics := make([]license.License, N)
+		base := vkit.DetLicense(1, "c03-refresh")
+		for i := range lics {
+			lics[i] = second(base, uint32(5000+round*100+i), uint32(i+1))
+			state[lics[i].Contract()] = "allowed"
+		}
+		srv := httptest.NewServer(http.HandlerFunc(func(w http.ResponseWriter, r *http.Request) {
+			var id uint32
+			fmt.Sscanf(strings.TrimPrefix(r.URL.Path, "/"), "%d", &id)
+			mu.Lock()
+			st := state[id]
+			hits[id]++
+			mu.Unlock()
+			var l license.License
+			for _, x := range lics {
+				if x.Contract() == id {
+					l = x
+				}
+			}
+			switch {
+			case l == nil || st == "gone":
+				w.Header().Set("Content-Type", "application/json")
+				w.Write([]byte(`{}`))
+			case st == "error":
+				w.WriteHeader(500)
+			default:
+				code := 1
+				if st == "refused" {
+					code = 2
+				}
+				w.Header().Set("Content-Type", "application/json")
+				fmt.Fprintf(w, `{"id":%d,"master":%d,"sign":%d,"state":%d}`, id, l.Master(), l.Signature(), code)
+			}
+		}))
+		hp := contract.NewHTTPContractProvider(base, usage.NewNoop())
+		if err := hp.Configure(map[string]interface{}{"url": srv.URL + "/", "interval": float64(40)}); err != nil {
+			t.Fatal(err)
+		}
+		keyOf := func(l license.License) security.Key {
+			k := security.Key(make([]byte, 24))
+			k.SetMaster(uint16(l.Master()))
+			k.SetContract(l.Contract())
+			k.SetSignature(l.Signature())
+			k.SetPermissions(security.AllowRead)
+			return k
+		}
+		accepted := func(l license.License) bool {
+			c, ok := hp.Get(l.Contract())
+			return ok && c.Validate(keyOf(l))
+		}
+		c := map[string]int{"round": round, "contracts": N}
+		fail := func(msg string) {
+			hp.Close()
+			srv.Close()
+			vkit.ReportFailure(t.Name(), c, msg, "")
+			t.Fatal(msg)
+		}
+		for _, l := range lics {
+			if !accepted(l) {
+				fail("a key of a contract the provider allows is refused")
+			}
+		}
+		// the provider changes its mind
+		broken := round % N
+		mu.Lock()
+		for i, l := range lics {
+			switch {
+			case i == broken:
+				state[l.Contract()] = []string{"gone", "error"}[round%2]
+			case i == (broken+1)%N:
+				// stays allowed
+			default:
+				state[l.Contract()] = "refused"
+			}
+		}
+		for id := range hits {
+			hits[id] = 0
+		}
+		mu.Unlock()
+		// wait until refresh rounds have demonstrably run (the broken contract has been asked for 4 times since),
+		// then give the refused ones a moment longer
+		deadline := time.Now().Add(30 * time.Second)
+		for {
+			mu.Lock()
+			n := hits[lics[broken].Contract()]
+			mu.Unlock()
+			if n >= 4 {
+				break
+			}
+			if time.Now().After(deadline) {
+				hp.Close()
+				srv.Close()
+				t.Skip("the provider did not run refresh rounds within 30 s (machine stalled?)")
+			}
+			time.Sleep(10 * time.Millisecond)
+		}
+		still := 0
+		for i, l := range lics {
+			if i != broken && i != (broken+1)%N && accepted(l) {
+				still++
+			}
+		}
+		if still > 0 {
+			fail(fmt.Sprintf("%d of %d contracts that the provider has been refusing for at least three refresh rounds still have their keys accepted (one other contract of the provider is %s)", still, N-2, state[lics[broken].Contract()]))
+		}
+		if !accepted(lics[(broken+1)%N]) {
+			fail("the contract that is still allowed at the provider is refused after the refresh")
+		}
+		hp.Close()
+		srv.Close()
+		vkit.Record(t.Name(), c, vkit.OK(true, "contract-refresh"))
 	}
 }
